@@ -610,6 +610,7 @@ def main(argv):
         else:
             coverage[k] = v
     coverage['known_findings_seen'] = sorted(hit_known)
+    coverage['shard_wall_seconds'] = [round(results[i].get('wall_s', 0), 1) for i in sorted(results)]
     coverage['violation_counts'] = {f'{c}|{k}': n_ for (c, k), n_ in m['vcount'].items()}
     if inconclusive:
         coverage['inconclusive_reasons'] = inconclusive[:20]
